@@ -17,4 +17,5 @@ CHECKS = {
     "C13": essa.c13,
     "C03": essa.c03,
     "C19": essa.c19,
+    "C18": essa.c18,
 }
